@@ -256,6 +256,7 @@ def run(ctx):
     rule_loopvars(ctx)
     rule_groups(ctx)
     X.rule_overlap_predicate(ctx, f"{EX}:find_free_voice")
+    X.rule_tie_key(ctx)
     OW.rule_F1(ctx, [(f"{EX}:save_musicxml", ["score_data"])], "MusicXML exporter")
     fs = [f for f in ctx.prog.functions.values() if f.module.name in (EX, IM) and "#" not in f.qname]
     G.rule_F7a(ctx, fs)
